@@ -7,6 +7,11 @@ props = [json.loads(l) for l in open(os.path.join(V, "properties.jsonl"))]
 
 # property id -> (category, technique, level text, level note) ; absent = not claimed (reason in NOT_APPLICABLE)
 CLAIMS = {
+ "C08": ("fault_enumeration",
+         "runtime monitoring: fault injection (8 fault kinds x 5 calling contexts x position/depth) with effect probes before/after, judged by the reference evaluator",
+         "one faulting operation of each of 8 kinds is injected in each of 5 calling contexts (direct, tail at trampoline iteration 1/2/k, apply, inside map/for-each/fold, inside a derived form in a procedure body) at a random position and depth of an otherwise valid program, between effects and followed by forms reading them back; error kind, absence of an invented value, surviving effects and later forms are judged by the reference evaluator. Every one of the 40 cells must be observed or the run is inconclusive.",
+         "trusted base: vlib/ref_scheme.py error kinds; operand-vs-check order is free but must be one strategy per program"),
+
  "C05": ("exploration",
          "runtime monitoring: tick-trace monitor + reference evaluator with native (hygienic) derived forms over exhaustive form pairs x positions and random nestings",
          "every ordered pair of the 9 derived forms with the inner one in each of the 33 sub-form positions of the outer one, plus random nestings inside procedures, is evaluated by the real interpreter with a ticking expression in every position; the value and the exact tick trace (which sub-forms ran, how often, in which order) are judged by the reference evaluator. Capture by the unhygienic expander is a listed known finding, recognised by alpha-renaming the program.",
